@@ -547,6 +547,11 @@ def run(cx, rep):
     # ---------------------------------------------------------------- C01.20 (= C05.13)
     from rules.c05 import engine_decides_rule
     engine_decides_rule(cx.rs, rep, "C01.20")
+    # ---------------------------------------------------------------- C01.21 .. C01.24 (frontend lowering of syntax)
+    syntax_fields_rule(cx, rep, "C01.21")
+    modifier_agreement_rule(cx, rep, "C01.22")
+    rest_last_rule(cx, rep, "C01.23")
+    proto_key_rule(cx, rep, "C01.24")
     # ---------------------------------------------------------------- C01.18 (= C07.11)
     rep.rule("C01.18", "the rest element of a list answers for every index from the prefix length on (boundary of the prefix walk)")
     prefix_boundary_rule(cx, rep, "C01.18")
@@ -780,3 +785,167 @@ def prefix_boundary_rule(cx, rep, rid):
                        g, ">" if op == "Gt" else ">=", ("%+d" % c) if c else "", "false" if not ok and ((op == "Gt" and c > -1) or (op == "Ge" and c > 0)) else "true for max == L-1 already", "lost" if ((op == "Gt" and c > -1) or (op == "Ge" and c > 0)) else "added to a prefix index"),
                    "%s:%s" % (f.file, x["line"]), sample={"fn": g, "comparison": "%s L%+d" % (op, c)})
     rep.floor(rid, "prefix / rest boundary tests", n, 1)
+
+
+# ---------------------------------------------------------------------------------------------------- C01.21
+def syntax_fields_rule(cx, rep, rid):
+    """A field of a syntax node that changes the meaning of the type and is never read by the frontend is lowered as if
+    it were absent - silently.  For the reviewed list of such fields (tables/c01_syntax_fields.json) some function under
+    src/frontend reads the field (field access on the node type, or a struct pattern that names it)."""
+    F = cx.rs
+    rep.rule(rid, "the frontend reads every field of a syntax node that changes the meaning of the type (reviewed list)")
+    want = cx.table("c01_syntax_fields.json")["fields"]
+    read = set()
+    for g, t in F.hir.items():
+        f = F.fns.get(g)
+        if f is None or "/src/frontend" not in (f.file or "") and "/src/swc_tools" not in (f.file or "") and "/src/parser_extractor" not in (f.file or ""):
+            continue
+        for n in walk(t["body"]):
+            if n["k"] == "Field" and n.get("adt"):
+                read.add((n["adt"].rsplit("::", 1)[-1], n["name"]))
+            if n["k"] == "P.Struct" and n.get("def"):
+                for fl in n.get("fields", []):
+                    if fl.get("pat", {}).get("k") != "P.Wild":
+                        read.add((n["def"].rsplit("::", 1)[-1], fl["name"]))
+    for e in want:
+        ok = (e["adt"], e["field"]) in read
+        rep.ob(rid, "%s.%s" % (e["adt"], e["field"]), ok,
+               "no function of the frontend reads `%s.%s` (%s): the construct is lowered as if that part were not written, without a diagnostic" % (e["adt"], e["field"], e["reason"]),
+               "packages/beff-core/src/frontend/mod.rs", sample={"adt": e["adt"], "field": e["field"], "read": ok})
+
+
+# ---------------------------------------------------------------------------------------------------- C01.22
+def modifier_agreement_rule(cx, rep, rid):
+    """`?` and `+?` on a mapped type both ADD the optional modifier (`-?` removes it).  In every case analysis over
+    swc's `TruePlusMinus` that yields an `Optionality`, the value for `Plus` equals the value for `True` - also when
+    `Plus` falls into a catch-all arm."""
+    F = cx.rs
+    rep.rule(rid, "`+?` means the same as `?` wherever a mapped type's optional modifier is turned into an optionality")
+    n = 0
+    def ctor(body):
+        for x in walk(body):
+            d = x.get("callee") if x["k"] == "Call" else x.get("def")
+            if d and "Optionality::" in d and x["k"] in ("Call", "Path", "Struct"):
+                return d.rsplit("::", 1)[-1]
+        return None
+    for g, t in sorted(F.hir.items()):
+        f = F.fns.get(g)
+        if f is None or "/src/frontend" not in (f.file or ""):
+            continue
+        for m in walk(t["body"]):
+            if m["k"] != "Match":
+                continue
+            arms = {}
+            wild = None
+            for a in m["arms"]:
+                vs = {(p.get("def") or "").rsplit("::", 1)[-1] for p in walk(a["pat"]) if "TruePlusMinus::" in (p.get("def") or "")}
+                c = ctor(a["body"])
+                for v in vs:
+                    arms[v] = c
+                if not vs and any(p["k"] == "P.Wild" for p in walk(a["pat"])):
+                    wild = c
+            if "True" not in arms or arms["True"] is None:
+                continue
+            n += 1
+            plus = arms.get("Plus", wild)
+            rep.ob(rid, "%s/plus-like-true" % g.rsplit("::", 1)[-1], plus == arms["True"],
+                   "%s turns the modifier `?` into Optionality::%s but `+?` into %s: `{[K in X]+?: T}` makes the members optional exactly like `?`" % (g, arms["True"], "Optionality::%s" % plus if plus else "nothing"),
+                   "%s:%s" % (f.file, m.get("line")), sample={"fn": g, "True": arms["True"], "Plus": plus})
+    rep.floor(rid, "case analyses over the optional modifier of mapped types", n, 1)
+
+
+# ---------------------------------------------------------------------------------------------------- C01.23
+def rest_last_rule(cx, rep, rid):
+    """The runtime tuple is `prefix.., ...rest[]`: elements, then the rest.  A tuple type with an element AFTER its rest
+    element (`[string, ...number[], boolean]`) cannot be represented; lowering it by collecting the non-rest elements
+    into the prefix reorders it silently.  Decided on the loop that lowers the elements of a `TsTupleType`: the branch
+    that pushes a prefix element is taken only where the rest element is known to be unset (a test of the rest
+    local that leads to an error), or the loop stops at the rest element."""
+    F = cx.rs
+    rep.rule(rid, "a tuple type is lowered to prefix-then-rest only when its rest element comes last")
+    n = 0
+    for g, t in sorted(F.hir.items()):
+        f = F.fns.get(g)
+        if f is None or "/src/frontend" not in (f.file or ""):
+            continue
+        for lp in walk(t["body"]):
+            if not (lp["k"] == "Match" and lp.get("src") == "ForLoopDesugar"):
+                continue
+            rest_tests = [x for x in walk(lp) if x["k"] in ("Let", "P.TupleStruct", "P.Struct") and "TsRestType" in ((x.get("pat") or x).get("def") or "") + json_defs(x)]
+            if not rest_tests:
+                continue
+            pushes = [x for x in walk(lp) if x["k"] == "MethodCall" and x.get("method") == "push"]
+            opt_locals = [x for x in walk(lp) if x["k"] == "MethodCall" and x.get("method") in ("is_some", "is_none") ]
+            if not pushes:
+                continue
+            n += 1
+            # a test of the rest local (is_some / is_none / pattern on it) inside the branch that pushes, or guarding it
+            guarded = False
+            for iff in walk(lp):
+                if iff["k"] != "If":
+                    continue
+                for branch in (iff.get("else"), iff.get("then")):
+                    if branch is None or not any(x is pushes[0] for x in walk(branch)):
+                        continue
+                    if any(x["k"] == "MethodCall" and x.get("method") in ("is_some", "is_none") for x in walk(branch) if not any(y is pushes[0] for y in walk(x))):
+                        guarded = True
+            rep.ob(rid, "%s/rest-is-last" % g.rsplit("::", 1)[-1], guarded,
+                   "%s lowers the elements of a tuple type by pushing every non-rest element onto the prefix without asking whether the rest element was already seen: `[string, ...number[], boolean]` becomes `[string, boolean, ...number[]]`, a different type, without a diagnostic" % g,
+                   "%s:%s" % (f.file, lp.get("line")), sample={"fn": g})
+    rep.floor(rid, "loops that lower the elements of a tuple type", n, 1)
+
+
+def json_defs(x):
+    return " ".join((y.get("def") or "") for y in walk(x))
+
+
+# ---------------------------------------------------------------------------------------------------- C01.24 (= C03.17)
+def proto_key_rule(cx, rep, rid):
+    """In a JavaScript object literal `{ "__proto__": v }` does not define a property: it sets the prototype.  The
+    printer writes tables keyed by USER strings as object literals (declared property names, discriminator values,
+    type names): a declared property called `__proto__` then never reaches the validator's table (it is not
+    validated at all), and the table's prototype is a validator.  Necessary: wherever the key text of an emitted
+    property is not a literal of the printer, the key `__proto__` is spelled as a computed key - at the site (a helper
+    that mentions the name and builds `PropName::Computed`) or by a pass over the finished module applied by the
+    function that hands the module to the emitter."""
+    F = cx.rs
+    rep.rule(rid, "a user-supplied key `__proto__` is emitted as a computed key (an object literal would set the prototype instead)")
+    from facts import mentions_str_lit
+    data_sites = []
+    fixers = []
+    emitters = []
+    for g, t in sorted(F.hir.items()):
+        f = F.fns.get(g)
+        if f is None or "/src/print/" not in (f.file or ""):
+            continue
+        body = t["body"]
+        if mentions_str_lit(F, body, "__proto__") and any((x.get("callee") or x.get("def") or "").endswith("PropName::Computed") for x in walk(body) if x["k"] in ("Call", "Path", "Struct")):
+            fixers.append(g)
+        if any(x["k"] == "MethodCall" and x.get("method") == "emit_module" for x in walk(body)):
+            emitters.append(g)
+        for x in walk(body):
+            if x["k"] == "Call" and (x.get("callee") or "").endswith("PropName::Str") and x.get("args"):
+                st = x["args"][0]
+                val = None
+                for y in walk(st):
+                    if y["k"] == "Struct" and (y.get("def") or "").endswith("Str"):
+                        val = next((fl["e"] for fl in y.get("fields", []) if fl["name"] == "value"), None)
+                if val is None:
+                    continue
+                lits = [z for z in walk(val) if z["k"] == "Lit" and z.get("lit") == "str"]
+                if not lits:
+                    data_sites.append((g, x.get("line")))
+    rep.floor(rid, "object keys emitted from data (not printer literals)", len(data_sites), 3)
+    passes = False
+    for e in emitters:
+        for x in walk(F.hir[e]["body"]):
+            if x["k"] == "MethodCall" and x.get("method") in ("visit_mut_with", "fold_with", "visit_mut_children_with"):
+                passes = passes or bool(fixers)
+            if x["k"] in ("Call", "MethodCall"):
+                cal = x.get("callee") if x["k"] == "Call" else (x.get("resolved") or x.get("callee"))
+                if F._callee_gid("beff_core", cal or "") in fixers:
+                    passes = True
+    for g, line in data_sites:
+        rep.ob(rid, "%s/data-key" % g.rsplit("::", 1)[-1], passes or g in fixers,
+               "%s emits an object-literal key taken from data (a declared property name, a discriminator value, a type name) as a plain string key, and nothing on the way to the emitter rewrites the key `__proto__` into a computed key: `{\"__proto__\": v}` sets the prototype of the table instead of defining the entry, so a declared property `__proto__` is never validated" % g,
+               "%s:%s" % (F.fns[g].file, line), sample={"fn": g, "normalised_before_emission": passes})
